@@ -58,13 +58,13 @@ def command_table(prog):
     return sm, table, flagdefs, res
 
 
-def run_command(prog, sm, table, flagdefs, cmd, loop_bound=40, max_paths=20000):
+def run_command(prog, sm, table, flagdefs, cmd, loop_bound=40, max_paths=20000, fixed=None):
     f = table.get(cmd)
     if not isinstance(f, Func):
         return None, None
     exc = Exec(prog, sm, loop_bound=loop_bound, max_paths=max_paths)
     exc.skip_init = True
-    rs = exc.run(f.name, args=[Opaque('clictx', flag_defaults=flagdefs.get(cmd, {}))])
+    rs = exc.run(f.name, args=[Opaque('clictx', flag_defaults=flagdefs.get(cmd, {}), fixed=fixed or {})])
     return rs, exc
 
 
